@@ -84,9 +84,9 @@ def run_hypothesis(mod, part, shard, nshards, tier, seed, open_sigs, st):
     import hypothesis
     from hypothesis import given, settings, HealthCheck, Phase, Verbosity
 
-    total = part.examples[tier]
+    total = max(1, int(part.examples[tier] * float(os.environ.get("VT_SCALE", "1"))))
     n = max(1, (total + nshards - 1) // nshards)
-    budget = part.budget_s[tier]
+    budget = part.budget_s[tier] * max(1.0, float(os.environ.get("VT_SCALE", "1")))
     t_end = time.time() + budget
     phases = [Phase.generate]
     if part.shrink:
